@@ -8,7 +8,7 @@ from typing import Dict, List, Optional, Tuple
 from ..fold import Folder, Unfoldable
 from ..model import AnchorMissing, Model, dotted, unparse, walk_no_nested
 from ..report import Report
-from ..util import site
+from ..util import guard_conjuncts, site
 from .c13_ops import _struct_sized
 
 CM = "pdfminer.cmapdb."
@@ -85,6 +85,14 @@ def run(model: Model, rep: Report) -> None:
     gw2 = model.func(F + "get_widths2")
     s2 = "".join(unparse(gw2.node).split())
     r4.check("foriinrange(cast(int,char1),cast(int,char2)+1):widths[i]=(w,(vx,vy))" in s2 and "fori,(w,vx,vy)inenumerate(choplist(3,v)):widths[cast(int,char1)+i]=(w,(vx,vy))" in s2.replace("for(i,(w,vx,vy))in", "fori,(w,vx,vy)in"), site(gw2), gw2.qualname, "W2: ranges inclusive; array form takes (w, vx, vy) triples", why="changed")
+    r12 = rep.rule("C07-R12", "GUARD", "W / W2 ranges: `c_first c_last w` is applied whenever both ends are integers - no further condition (a range of one CID, c_first == c_last, is a range)", 2)
+    for fn in (gw, gw2):
+        loops = [n for n in walk_no_nested(fn.node) if isinstance(n, ast.For) and isinstance(n.iter, ast.Call) and (dotted(n.iter.func) or "") == "range" and len(n.iter.args) == 2 and "char2" in unparse(n.iter.args[1])]
+        if not loops:
+            raise AnchorMissing(f"{fn.qualname}: range loop over char1..char2 not found")
+        g = guard_conjuncts(fn, loops[0], innermost=True)
+        extra = sorted(x for x in g if x not in ("isinstance(char1,int)", "isinstance(char2,int)", "len(r)==3", "3==len(r)", "len(r)==5", "5==len(r)"))
+        r12.check(not extra, site(fn, loops[0]), fn.qualname, "range loop runs under isinstance(char1, int) and isinstance(char2, int) only", why=f"further condition(s) {extra}: a valid range that fails them is skipped and its CIDs fall back to DW")
     # ---------------------------------------------------------------- R6
     char_width_rule(model, rep, "C07-R6")
     _decode_fsm(model, rep)
